@@ -176,7 +176,6 @@ pub open spec fn split_inv(tm: TMapV, p: PartV, mv: KeyMapV, done: Seq<StateID>)
     &&& forall|x: StateID| #[trigger] done.contains(x) ==> has_key_with(mv, x)
     &&& forall|k1: TransitionsToPartitionGroups, k2: TransitionsToPartitionGroups, x: StateID| mv.contains_key(k1) && mv.contains_key(k2) && #[trigger] mv[k1]@.contains(x) && #[trigger] mv[k2]@.contains(x) ==> k1 == k2
 }
-pub open spec fn set_nonempty(s: Set<StateID>) -> bool { exists|x: StateID| #[trigger] s.contains(x) }
 pub open spec fn has_key_with(mv: KeyMapV, x: StateID) -> bool { exists|k: TransitionsToPartitionGroups| #[trigger] mv.contains_key(k) && mv[k]@.contains(x) }
 #[verifier::opaque]
 pub open spec fn in_some(r: PartV, x: StateID) -> bool { exists|i: int| 0 <= i < r.len() && #[trigger] r[i].contains(x) }
@@ -350,7 +349,6 @@ pub proof fn lemma_split_step(tm: TMapV, p: PartV, mv0: KeyMapV, mv1: KeyMapV, d
 }
 
 // ---------------------------------------------------------------- calculate_new_partition: all groups split, pieces in order
-pub open spec fn all_nonempty(p: PartV) -> bool { forall|g: int| 0 <= g < p.len() ==> set_nonempty(#[trigger] p[g]) }
 #[verifier::opaque]
 pub open spec fn groups_disjoint(p: PartV) -> bool {
     forall|g: int, h: int, x: StateID| 0 <= g < p.len() && 0 <= h < p.len() && #[trigger] p[g].contains(x) && #[trigger] p[h].contains(x) ==> g == h
@@ -579,10 +577,6 @@ pub proof fn lemma_stable_from_tm(d: CompiledDfa, tm: TMapV, p: PartV)
         let t = choose|t: int| #[trigger] in_grp(p, h, t) && 0 <= s1 < d.states@.len() && d.states@[s1].transitions@.contains((cc, StateSetID(t as u32)));
         assert(0 <= h < p.len());
     }
-}
-/// what minimize returns: the quotient by some stable, acceptance-homogeneous partition whose first group holds the start state
-pub open spec fn minimized(d: CompiledDfa, r: CompiledDfa) -> bool {
-    exists|p: PartV| #[trigger] part_ok(p, d.states@.len() as int) && stable(d, p) && acc_homog(d, p) && quotient_ok(d, p, r) && all_nonempty(p)
 }
 
 /// edges recorded so far: all transitions of the states below `full`, and the first j transitions of state `full`
@@ -1184,12 +1178,3 @@ pub open spec fn tv_of_map(tm: TMapV, tv: Seq<TvEntry>) -> bool {
     &&& forall|s: StateID| #[trigger] tm.contains_key(s) ==> tv_has(tv, s)
 }
 
-/// THEOREM (C03): whatever Minimizer::minimize returns accepts, for every class predicate, every word and every token type, exactly what the automaton
-/// it was given accepts (both run from state 0, the start state)
-pub proof fn theorem_minimize_language(d: CompiledDfa, r: CompiledDfa, cls: ClsF, w: Seq<char>, tid: TerminalID)
-    requires d_wf(d), minimized(d, r)
-    ensures d_acc(r, cls, w, tid) <==> d_acc(d, cls, w, tid)
-{
-    let p = choose|p: PartV| #[trigger] part_ok(p, d.states@.len() as int) && stable(d, p) && acc_homog(d, p) && quotient_ok(d, p, r) && all_nonempty(p);
-    theorem_quotient_language(d, p, r, cls, w, tid);
-}
